@@ -508,6 +508,17 @@ def boundary_values(g: Gen, d):
                 ("neg-inf", np.full(len(nvec), -INF, dtype=g.ft)), ("halves", np.full(len(nvec), 0.5, dtype=g.ft)),
                 ("nans", np.full(len(nvec), NAN, dtype=g.ft)), ("too-long", np.zeros(len(nvec) + 1, dtype=np.int32)),
                 ("two-d", np.zeros((1, len(nvec)), dtype=np.int32)), ("scalar", 0)]
+        # members (and the first non-member) given in narrow integer dtypes: membership is about the VALUE
+        out += [("uint8-max-member", np.minimum(nvec - 1, 255).astype(np.uint8)),
+                ("int8-max-member", np.minimum(nvec - 1, 127).astype(np.int8)),
+                ("uint8-mid", np.minimum(nvec // 2, 200).astype(np.uint8)),
+                ("int16-max-member", (nvec - 1).astype(np.int16)), ("uint16-at-nvec", nvec.astype(np.uint16)),
+                ("bool-ones", np.ones(len(nvec), dtype=bool)), ("float16-zeros", np.zeros(len(nvec), dtype=np.float16))]
+    if k == "discrete":
+        n = int(d["n"])
+        out += [("uint8-max-member", np.uint8(min(n - 1, 255))), ("int8-max-member", np.int8(min(n - 1, 127))),
+                ("uint8-array", np.asarray(min(n - 1, 200), dtype=np.uint8)), ("int16-at-n", np.int16(min(n, 30000))),
+                ("bool-true", np.bool_(True)), ("float16-zero", np.float16(0.0))]
     return out
 
 
@@ -1080,6 +1091,9 @@ FIXED = [
     {"k": "box", "shape": [2, 0], "low": [], "high": []},
     {"k": "mb", "shape": [2, 3]},
     {"k": "md", "nvec": [3, 1, 4]},
+    {"k": "md", "nvec": [300, 4]},          # sizes beyond the range of int8 / uint8 candidates
+    {"k": "md", "nvec": [200, 3, 129]},
+    {"k": "discrete", "n": 300},
     {"k": "discrete", "n": 1},
     {"k": "dict", "items": []},
     {"k": "tuple", "items": [{"k": "dict", "items": []}, {"k": "mb", "shape": [2, 3]}]},
@@ -1101,7 +1115,36 @@ def round_desc(g: Gen, d):
     return d
 
 
+def check_masked_sample_many_keys(ctx):
+    """Masked Discrete sampling over 2^25 keys (float32 mode; 2^22 with x64): an implementation whose
+    inverse-CDF / search breaks exactly at an edge draw (u = 0 or the largest u below 1) picks a masked index
+    for about one key in 2^23.  Masks exclude the first and / or the last index."""
+    from lerax.space import Discrete
+    n_chunks = ctx.budget(8, 32) if not ctx.x64 else ctx.budget(1, 4)
+    for n, mask in [(5, [False, True, False, True, True]), (4, [True, True, False, False]), (3, [False, True, False])]:
+        sp = Discrete(n)
+        m = jnp.asarray(mask)
+        f = jax.jit(jax.vmap(lambda k: sp.sample(key=k, mask=m)))
+        counts = np.zeros(n + 2, dtype=np.int64)
+        bad_key = None
+        for c in range(n_chunks):
+            seed = int(ctx.rng.integers(0, 2**31))
+            out = np.asarray(f(jax.random.split(jax.random.key(seed), 1 << 22)))
+            counts += np.bincount(np.clip(out, -1, n) + 1, minlength=n + 2)
+            bad = np.nonzero((out < 0) | (out >= n) | ~np.asarray(mask)[np.clip(out, 0, n - 1)])[0]
+            if len(bad) and bad_key is None:
+                bad_key = {"seed": seed, "index_in_split": int(bad[0]), "sampled": int(out[bad[0]])}
+        case = {"space": {"k": "discrete", "n": n}, "mask": mask, "keys": int(n_chunks) << 22,
+                "histogram(-1..n)": counts.tolist(), "first_bad": bad_key,
+                "replay": "Discrete(n).sample(key=jax.random.split(jax.random.key(seed), 1 << 22)[index_in_split], mask=mask)"}
+        ctx.case({"op": "masked-sample-many-keys", "n": n, "mask": mask}, True)
+        ctx.count("sample:masked-many-keys", int(n_chunks) << 22)
+        if bad_key is not None:
+            ctx.phi_fail("sample_discrete_mask", case, key="sample/Discrete/masked-index-chosen")
+
+
 def run(ctx):
+    check_masked_sample_many_keys(ctx)
     import gymnasium as gym
     gym.logger.min_level = 40
     g = Gen(ctx)
